@@ -724,3 +724,39 @@ def _flow3():
     out += [f"/-- {header('preprocessing/stacker.py', 'Stacker._restore_squeezed_dims', src, fn)}: body -/",
             f"def stackerRestoreSqueezedBody : List String := [{', '.join(lean_str(x) for x in _stmts(fn))}]"]
     return "\n".join(out) + "\n"
+
+
+@target("flowFacts4", "Facts", ["C02", "C03", "C04", "C05", "C07"])
+def _flow4():
+    """label-based (not positional) handling of the data handed to `transform` and of the index restored on the way back"""
+    out = []
+    path = "preprocessing/stacker.py"
+    src, tree = load(path)
+    # -- Dataset branch of `_stack`: the statements of the `case xr.Dataset()` arm, in order
+    fn = find_func(tree, "Stacker._stack")
+    arm = []
+    for n in ast.walk(fn):
+        if isinstance(n, ast.match_case) and ast.unparse(n.pattern) == "xr.Dataset()":
+            arm = [ast.unparse(s) for s in n.body]
+    if not arm:
+        raise TranslationError("Stacker._stack: no `case xr.Dataset()` arm found")
+    out += [f"/-- {header(path, 'Stacker._stack', src, fn)}: statements of the Dataset arm (all variables are brought into one dimension order "
+            "before `to_stacked_array`, so the feature order is a function of the fitted state only) -/",
+            f"def stackerDatasetArm : List String := [{', '.join(lean_str(' '.join(x.split())) for x in arm)}]"]
+    # -- transform: order of the calls on `self`
+    fn = find_func(tree, "Stacker.transform")
+    calls = sorted((n.lineno, ast.unparse(n.func)) for n in ast.walk(fn) if isinstance(n, ast.Call) and ast.unparse(n.func).startswith("self._"))
+    out += [f"/-- {header(path, 'Stacker.transform', src, fn)}: the private steps, in order (feature labels are aligned BEFORE they are compared) -/",
+            f"def stackerTransformSteps : List String := [{', '.join(lean_str(c) for _, c in calls)}]"]
+    al = find_func(tree, "Stacker._align_feature_coords")
+    sel = [ast.unparse(n) for n in ast.walk(al) if isinstance(n, ast.Call) and ast.unparse(n.func) == "X.sel"]
+    out += [f"/-- {header(path, 'Stacker._align_feature_coords', src, al)}: the label-based selections it performs -/",
+            f"def stackerAlignSelections : List String := [{', '.join(lean_str(x) for x in sel)}]"]
+    # -- MultiIndexConverter._inverse_transform: the index that is written back is cut down to the entries that are left
+    path = "preprocessing/multi_index_converter.py"
+    src, tree = load(path)
+    fn = find_func(tree, "MultiIndexConverter._inverse_transform")
+    cuts = [" ".join(ast.unparse(n).split()) for n in ast.walk(fn) if isinstance(n, ast.If) and "sizes" in ast.unparse(n.test)]
+    out += [f"/-- {header(path, 'MultiIndexConverter._inverse_transform', src, fn)}: size-guarded statements (entries dropped in between) -/",
+            f"def multiIndexRestoreCuts : List String := [{', '.join(lean_str(x) for x in cuts)}]"]
+    return "\n".join(out) + "\n"
